@@ -141,6 +141,7 @@ func verifC15Collect(lines *Lines, out *bytes.Buffer, res *VerifLayoutResult) {
 //	"align"     parser, then VaralignBlock.Process for every line and Finish at the end
 //	"trim"      parser, then LineChecker.CheckTrailingWhitespace on every line
 //	"trim+align" per line CheckTrailingWhitespace then Process; Finish at the end
+//	"align+valuefix" per line Process, then a fix that changes the value (post-patch -> pre-configure); Finish at the end
 //	"shell"     parser, then MkLineChecker.checkShellCommand on every shell line
 //	"describe"  parser with autofix switched off (nothing is changed)
 //
@@ -179,13 +180,25 @@ func VerifVaralign(rawLines []string, mode string) (res VerifLayoutResult) {
 			case "trim+align":
 				LineChecker{mkline.Line}.CheckTrailingWhitespace()
 				va.Process(mkline)
+			case "align+valuefix":
+				// MkLines.checkLine: varalign.Process(mkline) first, then the other checks of the line;
+				// one of them (SubstContext: SUBST_STAGE post-patch -> pre-configure) changes the VALUE
+				// of the line after VaralignBlock has split it.  Here: that replacement on every line
+				// that contains the word, as a silent fix.
+				va.Process(mkline)
+				if strings.Contains(mkline.Line.Text, "post-patch") {
+					fix := mkline.Line.Autofix()
+					fix.Silent()
+					fix.Replace("post-patch", "pre-configure")
+					fix.Apply()
+				}
 			case "shell":
 				if mkline.IsShellCommand() {
 					MkLineChecker{mklines, mkline}.checkShellCommand()
 				}
 			}
 		}
-		if mode == "align" || mode == "trim+align" {
+		if mode == "align" || mode == "trim+align" || mode == "align+valuefix" {
 			va.Finish()
 		}
 		verifC15Collect(lines, &out, &res)
